@@ -56,10 +56,17 @@ def ipset_cases_simulated(ctx, cfg, dims, num, depth, placements, tag):
     return ipset_replay(ctx, cases, dims, placements, tag)
 
 
+def replay_dir():
+    # vf.violation writes replay files under /verif/evidence/replays whatever VERIF_EVIDENCE_DIR says;
+    # concurrent runs of other checks have been seen to remove that directory
+    os.makedirs(os.path.join(vf.VERIF, "evidence", "replays"), exist_ok=True)
+
+
 def ipset_replay(ctx, cases, dims, placements, tag):
     inp = dict(dims)
     inp.update({"cases": cases, "placements": placements, "tag": tag})
     res = ctx.go_driver("./c17", "TestIpSetReplay", inp, name="ipset_" + tag, timeout=1200)
+    replay_dir()
     ctx.take_driver_result(res, "[IpSet %s] " % tag)
     cnt = res.get("counters", {})
     ctx.cov["replay"]["ipset_" + tag] = {
@@ -115,6 +122,7 @@ def gate_replay(ctx, cases, tag, variants, full_configs):
     info = {}
     for test, name in (("TestGateHandlers", "handlers"), ("TestGateDefaultChain", "default")):
         res = ctx.go_driver("./c17", test, inp, name="gate_%s_%s" % (tag, name), timeout=1500)
+        replay_dir()
         ctx.take_driver_result(res, "[Gate %s/%s] " % (tag, name))
         cnt = res.get("counters", {})
         info[name] = {"replays": res["cases"], "counters": cnt, "drift": res["drift"],
@@ -133,12 +141,10 @@ def gate_replay(ctx, cases, tag, variants, full_configs):
 def gate(ctx, thorough):
     if thorough:
         cases = gate_model(ctx, "Gate_full.cfg", 2400)
-        gate_replay(ctx, cases, "full", 2, 400)
+        gate_replay(ctx, cases, "full", 1, 400)
     else:
-        a = gate_model(ctx, "Gate_acl.cfg", 600)
-        gate_replay(ctx, a, "acl", 1, 36)
-        v = gate_model(ctx, "Gate_views.cfg", 600)
-        gate_replay(ctx, v, "views", 1, 36)
+        cases = gate_model(ctx, "Gate_quick.cfg", 600)
+        gate_replay(ctx, cases, "quick", 1, 60)
 
 
 def run(ctx, replay):
@@ -172,6 +178,7 @@ def run_replay(ctx, path):
         res = ctx.go_driver("./c17", "TestGateOne", rp, name="replay_gate", timeout=300)
     else:
         raise vf.MachineryError("unknown replay kind %r" % kind)
+    replay_dir()
     ctx.take_driver_result(res, "[replay] ")
     if res.get("skipped"):
         raise vf.MachineryError("replay skipped: %s" % res["skipped"][:3])
